@@ -35,6 +35,16 @@ def _pa(prop):
             "INVARIANTS Consistent Inv_ParserIsCatalogue\nCHECK_DEADLOCK FALSE\n", {"quick": 20, "thorough": 400})
 
 
+def _et(prop):
+    import verdict_gen
+    return (f"---- MODULE MC_et_{prop} ----\nEXTENDS MC_EnumTools\nmcLims == {verdict_gen.lims_tla()}\nmcTMin == -128\n====\n",
+            "SPECIFICATION Spec\nCONSTANTS\n Lims <- mcLims\n Tier = \"quick\"\n NRand = {q}\n Prop = \"" + prop + "\"\n IterMatchImplemented = TRUE\n"
+            " UsePinnedNeg = FALSE\n UsePinnedOffset = FALSE\n TMin <- mcTMin\n TMax = 127\n"
+            "INVARIANTS Consistent Inv_Verdict Inv_Items\nCHECK_DEADLOCK FALSE\n", {"quick": 10, "thorough": 200})
+
+
+for _p in ("C10", "C11", "C12", "C13", "C14"):
+    MODELS["enumtools_" + _p.lower()] = _et(_p)
 MODELS["parseattr_c13"] = _pa("C13")
 MODELS["parseattr_c10"] = _pa("C10")
 
@@ -43,13 +53,19 @@ NEGATIVE = {
     "gencode_i4_pinned_offset": ("gencode_i4", lambda cfg: cfg.replace("UsePinnedOffset = FALSE", "UsePinnedOffset = TRUE").replace("MaxCard = 16", "MaxCard = 3"), "Inv_"),
     "parsevalues_pinned_neg": ("parsevalues", lambda cfg: cfg.replace("UsePinnedNeg = FALSE", "UsePinnedNeg = TRUE").replace("N = 3", "N = 2"), "Inv_Verdict"),
     "parseattr_iter_match": ("parseattr_c10", lambda cfg: cfg.replace("IterMatchImplemented = TRUE", "IterMatchImplemented = FALSE"), "Inv_ParserIsCatalogue"),
+    "enumtools_iter_match": ("enumtools_c10", lambda cfg: cfg.replace("IterMatchImplemented = TRUE", "IterMatchImplemented = FALSE"), "Inv_Verdict"),
+    # (F5 cannot be exhibited on the Verdict cases: landmark coordinates are symmetric around 0, the asymmetry of
+    #  two's complement that F5 needs is modelled by MC_ParseValues' tiny type -> parsevalues_pinned_neg)
+    "enumtools_pinned_offset": ("enumtools_c10", lambda cfg: cfg.replace("UsePinnedOffset = FALSE", "UsePinnedOffset = TRUE"), "Inv_Items"),
     "iterimpl_pinned_table": ("iterimpl_i3", lambda cfg: cfg.replace("PinnedTable = FALSE", "PinnedTable = TRUE"), "ConstructorOK"),
 }
 FOR_PROP = {"C01": ["gencode_i4", "gencode_u4", "gencode_i8"], "C03": ["gencode_i4", "gencode_u4", "gencode_i8"],
             "C04": ["gencode_i4", "gencode_u4"], "C05": ["gencode_i4", "gencode_u4", "gencode_i8"],
             "C02": ["gencode_i4", "iterimpl_i3", "iterimpl_u3"], "C06": ["iterimpl_i3", "iterimpl_u3"], "C07": ["iterimpl_i3", "iterimpl_u3", "gencode_i4"],
             "C08": ["iterimpl_u3"], "C09": ["resolve"], "C10": ["resolve", "parseattr_c10"], "C13": ["resolve", "parseattr_c13"],
-            "C11": ["parsevalues"], "C12": ["parsevalues"], "C14": ["parsevalues"]}
+            "C11": ["parsevalues", "enumtools_c11"], "C12": ["parsevalues", "enumtools_c12"], "C14": ["parsevalues", "enumtools_c14"]}
+FOR_PROP["C10"].append("enumtools_c10")
+FOR_PROP["C13"].append("enumtools_c13")
 
 
 def run_model(name, tier, negative=None):
